@@ -484,6 +484,8 @@ def build_system(d):
     if not (np.array_equal(s.box.vects, np.array(d['vects'], dtype=float))
             and np.array_equal(s.atoms.pos, np.array(d['pos'], dtype=float))):
         raise cm.InfraError('System constructor changed the inputs')
+    if d.get('symbols') is not None and s.natypes != d['natypes']:
+        raise cm.InfraError(f'System has {s.natypes} atom types, the case expects {d["natypes"]}')
     return s
 
 
@@ -641,15 +643,19 @@ def _dump_via(s, fmt, out, **kw):
         shutil.rmtree(tmp, ignore_errors=True)
 
 
-def real_data(d, style, units, ff, natypes=None, fname=None):
-    """-> ('ok', text, info, system_after) | (errclass,)"""
+def real_data(d, style, units, ff, natypes=None, fname=None, opts=None):
+    """-> ('ok', text, info | None, system_after) | (errclass,)"""
     s = build_system(d)
     try:
-        kw = {}
+        kw = dict(opts or {})
         if natypes is not None:
             kw['natypes'] = natypes
         out = None if fname is None else 'stream' if fname == '<stream>' else 'path:' + fname
         text, info = _dump_via(s, 'atom_data', out, atom_style=style, units=units, float_format=fmt_py(ff), **kw)
+        if kw.get('return_info') is False:
+            if info is not None:
+                return ('err:value', f'dump returned {info!r} although return_info=False')
+            return ('ok', text, None, s)
         if out is None:
             info = info[0]
         if not isinstance(info, str):
@@ -1348,6 +1354,8 @@ def check_poscar(d, ff, coordstyle, scale, symbols, parsed):
         ck.fail('counts', f'per-type counts {parsed["counts"]}, the system has {want_counts}')
     if symbols is not None and parsed['symbols'] != list(symbols):
         ck.fail('symbols', f'symbols line {parsed["symbols"]} vs {list(symbols)}')
+    if symbols is None and parsed['symbols'] is not None:
+        ck.fail('symbols', f'symbols line {parsed["symbols"]} although the system has no complete set of symbols')
     order = [k for a in range(1, ntyp + 1) for k in range(len(P)) if d['atype'][k] == a]
     if len(parsed['raw']) != len(order):
         ck.fail('count', f'{len(parsed["raw"])} coordinate lines for {len(order)} atoms')
@@ -1419,7 +1427,13 @@ def gen_data_case(rng, i):
         # drop a required property: both sides must refuse
         drop = needed_props(style, False)[0][0]
         d['props'].pop(drop, None)
-    return {'kind': 'data', 'd': d, 'style': style, 'units': units, 'ff': ff, 'natypes': natypes, 'fname': fname}
+    opts = {}
+    if rng.random() < 0.25:
+        opts['safecopy'] = True            # the file must be the same whether or not the caller's system is kept unwrapped
+    if rng.random() < 0.08:
+        opts['return_info'] = False
+    return {'kind': 'data', 'd': d, 'style': style, 'units': units, 'ff': ff, 'natypes': natypes, 'fname': fname,
+            'opts': opts}
 
 
 DUMP_EXTRA = [('velocity', 0, 3), ('force', 0, 3), ('charge', 0, 1), ('mass', 0, 1), ('m_id', 1, 1), ('radius', 0, 1),
@@ -1454,7 +1468,7 @@ def gen_dump_case(rng, i):
         prop_names = ['atom_id', 'atype'] + rng.sample(['pos', 'spos', 'upos', 'supos'], rng.randint(1, 3)) \
             + [p for p in d['props'] if p != 'atom_id' and rng.random() < 0.7]
     return {'kind': 'dump', 'd': d, 'units': units, 'ff': ff, 'prop_names': prop_names,
-            'timestep': rng.choice([0, 0, 1, 12, 250000, 10 ** 9]), 'out': gen_out(rng, 'a.dump')}
+            'timestep': rng.choice([0, 0, 1, 12, 250000, 10 ** 9, 2 ** 31, 3 * 10 ** 9, 2 ** 40 + 7]), 'out': gen_out(rng, 'a.dump')}
 
 
 def gen_poscar_case(rng, i):
@@ -1465,13 +1479,30 @@ def gen_poscar_case(rng, i):
         scale = rng.choice([1.0, 2.0, 0.5, 4.0, 0.25, 1.0])
     else:
         scale = rng.choice([1.0, rng.uniform(0.3, 6.0), 3.615, 0.1])
-    symbols = None
-    if rng.random() < 0.5:
-        symbols = rng.sample(['Al', 'Cu', 'Fe', 'Ni', 'O'], d['natypes'])
+    # symbols: passed as a list, as a bare string (one type), or carried by the system (complete -> written,
+    # partly None -> no symbols line); optionally one more symbol than the largest type in use (unused last type)
+    symbols = symarg = None
+    r = rng.random()
+    if r < 0.55:
+        src = rng.choice(['arg', 'arg', 'system', 'both'])
+        if src != 'arg' and rng.random() < 0.4:
+            d['natypes'] += 1              # the system's symbols define one more type than the atoms use
+        symbols = rng.sample(['Al', 'Cu', 'Fe', 'Ni', 'O', 'U'], d['natypes'])
+        if src in ('arg', 'both'):
+            symarg = list(symbols)
+            if len(symbols) == 1 and rng.random() < 0.6:
+                symarg = symbols[0]
+        if src in ('system', 'both'):
+            d['symbols'] = list(symbols) if src == 'system' else rng.sample(['H', 'He', 'Li', 'Be'], d['natypes'])
+    elif r < 0.65 and d['natypes'] >= 2:
+        d['symbols'] = [None if k == rng.randrange(d['natypes']) or rng.random() < 0.3 else 'Al' + 'x' * k
+                        for k in range(d['natypes'])]
+        if None not in d['symbols']:
+            d['symbols'][-1] = None
     header = rng.choice(['', 'test cell', 'x'])
     ff = rng.choice(['e13', 'e13', 'e8', 'e16', 'f13', 'f8', 'e5'])
-    return {'kind': 'poscar', 'd': d, 'coordstyle': coordstyle, 'scale': scale, 'symbols': symbols, 'header': header,
-            'ff': ff, 'out': gen_out(rng, 'POSCAR')}
+    return {'kind': 'poscar', 'd': d, 'coordstyle': coordstyle, 'scale': scale, 'symbols': symbols, 'symarg': symarg,
+            'header': header, 'ff': ff, 'out': gen_out(rng, 'POSCAR')}
 
 
 def gen_table_case(rng, i):
@@ -1542,11 +1573,12 @@ def model_line(c):
 
 def real_call(c):
     if c['kind'] == 'data':
-        return real_data(c['d'], c['style'], c['units'], c['ff'], c['natypes'], c['fname'])
+        return real_data(c['d'], c['style'], c['units'], c['ff'], c['natypes'], c['fname'], c.get('opts'))
     if c['kind'] == 'dump':
         return real_dump(c['d'], c['units'], c['ff'], c['prop_names'], c.get('timestep', 0), c.get('out'))
     if c['kind'] == 'poscar':
-        return real_poscar(c['d'], c['ff'], c['coordstyle'], c['scale'], c['header'], c['symbols'], c.get('out'))
+        return real_poscar(c['d'], c['ff'], c['coordstyle'], c['scale'], c['header'], c.get('symarg', c['symbols']),
+                           c.get('out'))
     return real_table(c['d'], c['ff'], c['cols'], c['units'], c['header'], c.get('out'))
 
 
@@ -1731,7 +1763,7 @@ def run_cases(ctx, cases, tie=True):
                              {'op': kind, 'case': case_replay(c), 'real': rtext, 'model': mtext})
         if kind == 'data':
             minfo = unhex(mo[2])
-            if minfo != real[2]:
+            if real[2] is not None and minfo != real[2]:
                 ctx.disagree('data:info', f'command snippet differs: atomman {real[2]!r}, model {minfo!r}',
                              {'op': kind, 'case': case_replay(c)})
         if tie and kind == 'table':
@@ -2096,7 +2128,7 @@ def fails_in_fresh_process(cases):
     return json.loads(r.stdout.split('@@RESULT@@', 1)[1])
 
 
-_confirm_budget = {'left': 8}
+_confirm_budget = {'left': 6}
 
 
 def oracle_session(ctx, cases, report):
@@ -2110,20 +2142,26 @@ def oracle_session(ctx, cases, report):
         if not found:
             continue
         prefix = cases[:j + 1]
-        if _confirm_budget['left'] > 0:
-            _confirm_budget['left'] -= 1
-            alone = fails_in_fresh_process([c])
-            if alone:
-                for key, what, rp in found:
-                    report(key, what, rp)
-                return
-            seq = fails_in_fresh_process(prefix) if alone is not None else None
-            if seq == [] and alone == []:
-                ctx.extra['session_history_dependent'] = ctx.extra.get('session_history_dependent', 0) + 1
-                ctx.notes.append(f'C07 session: dump of style {c["style"]!r} fails in this process but neither alone nor after '
-                                 f'{[x["style"] for x in prefix[:-1]]} in a fresh one: {found[0][1][:200]}')
-                _history_dependent.append((found, prefix))
-                return
+        keys = {k for k, _w, _r in found}
+        if keys & _alone_keys or _confirm_budget['left'] <= 0:
+            # the same clause already failed for a dump on its own (or no confirmation left): plain report
+            for key, what, rp in found:
+                report(key, what, rp)
+            return
+        _confirm_budget['left'] -= 1
+        alone = fails_in_fresh_process([c])
+        if alone or alone is None:
+            _alone_keys.update(keys)
+            for key, what, rp in found:
+                report(key, what, rp)
+            return
+        seq = fails_in_fresh_process(prefix)
+        if seq == []:
+            ctx.extra['session_history_dependent'] = ctx.extra.get('session_history_dependent', 0) + 1
+            ctx.notes.append(f'C07 session: dump of style {c["style"]!r} fails in this process but neither alone nor after '
+                             f'{[x["style"] for x in prefix[:-1]]} in a fresh one: {found[0][1][:200]}')
+            _history_dependent.append((found, prefix))
+            return
         for key, what, rp in found:
             report('session:' + key, f'dump {j + 1} of a sequence of {j + 1} dumps in one process '
                                      f'(styles {[x["style"] for x in prefix]}; the same dump alone in a fresh process is '
@@ -2132,6 +2170,7 @@ def oracle_session(ctx, cases, report):
         return
 
 
+_alone_keys = set()
 _history_dependent = []
 
 
@@ -2141,7 +2180,8 @@ def search(ctx, broken):
     # call sequences first: their replay (a fresh process running the same sequence) reproduces state-dependent
     # failures that a single-call replay would not
     del _history_dependent[:]
-    _confirm_budget['left'] = 8
+    _alone_keys.clear()
+    _confirm_budget['left'] = 6
     nviol = len(ctx.violations)
     for _ in range(ctx.n(25, 400) * mult):
         oracle_session(ctx, gen_session(rng), ctx.violate)
